@@ -17,6 +17,9 @@ NATIVE_FLAGS = {
     'asan': ('-O1', '-g', '-DNDEBUG', '-fsanitize=address,undefined', '-fno-sanitize-recover=all', '-fno-omit-frame-pointer'),
     'asan_dbg': ('-O0', '-g', '-fsanitize=address,undefined', '-fno-sanitize-recover=all', '-fno-omit-frame-pointer'),
     'vg': ('-O1', '-g', '-DNDEBUG'),
+    'tsan': ('-O1', '-g', '-DNDEBUG', '-fsanitize=thread', '-pthread'),
+    'clang_ubsan': ('CLANG', '-O1', '-g', '-DNDEBUG', '-fsanitize=undefined', '-fno-sanitize-recover=all', '-fno-sanitize=vptr,function'),
+    'clang_ubsan_dbg': ('CLANG', '-O0', '-g', '-fsanitize=undefined', '-fno-sanitize-recover=all', '-fno-sanitize=vptr,function'),
 }
 
 
@@ -110,6 +113,12 @@ def work(spec):
                 'inconclusive': ['g++ accepts the unit but clang-14 rejects it: ' + first_error(diag)], 'failures': [],
                 'n_failures': 0, 'asserts': {}, 'paths': 0, 'instrs': 0, 'queries': {}, 'solver_s': 0,
                 'wall_s': round(time.time() - t0, 2), 'functions': [], 'externals': [], 'traces': [], 'spec': spec}
+    if spec.get('product'):
+        ll2, diag2 = fe.ir(spec['harness'], spec['inst'], spec['product'], spec.get('extra', ()), spec.get('defs', ()))
+        if ll2 is None:
+            spec = dict(spec); spec.pop('product')
+        else:
+            spec = dict(spec, product_ll=ll2)
     r = run_unit_subprocess(fe, ll, spec)
     r['spec'] = spec
     r['ir_lines'] = sum(1 for _ in open(ll))
@@ -235,14 +244,27 @@ def replay_failure(fe, res, f, outdir):
     tries = []
     if kind == 'ASSERT-FAIL':
         tries = [('dbg' if dbgflav else 'rel', False)]
+        if spec.get('native') == 'tsan':
+            tries = [('tsan', False)]
     elif kind == 'ABORT' or kind == 'UNCAUGHT-EXCEPTION':
         tries = [('dbg' if dbgflav else 'rel', False), ('dbg', False)]
     elif kind == 'UNINIT-DECISION':
         tries = [('vg', True)]
     elif kind.startswith('UB-') or kind in ASAN_KINDS:
-        tries = [('asan_dbg' if dbgflav else 'asan', False), ('asan_dbg', False)]
+        tries = [('asan_dbg' if dbgflav else 'asan', False), ('asan_dbg', False),
+                 ('clang_ubsan_dbg' if dbgflav else 'clang_ubsan', False)]
     else:
         tries = [('rel', False)]
+    if kind == 'BUILD-DIVERGENCE':
+        outs = []
+        for flav in ('rel', 'dbg'):
+            exe, d = fe.native(spec['harness'], spec['inst'], NATIVE_FLAGS[flav], spec.get('defs', ()), tag='r' + flav)
+            if exe is None:
+                return False, rp, 'native build failed: ' + first_error(d)
+            rc, out, err = run_native(exe, rp)
+            outs.append((rc, out))
+        differ = outs[0] != outs[1]
+        return differ, rp, f'rel: rc={outs[0][0]} {outs[0][1][-200:]!r} | dbg: rc={outs[1][0]} {outs[1][1][-200:]!r}'
     detail = ''
     for flav, vg in tries:
         exe, d = fe.native(spec['harness'], spec['inst'], NATIVE_FLAGS[flav], spec.get('defs', ()), tag='r' + flav)
@@ -251,7 +273,10 @@ def replay_failure(fe, res, f, outdir):
             continue
         rc, out, err = run_native(exe, rp, valgrind=vg)
         detail = f'[{flav}] rc={rc} ' + (out[-300:] + ' | ' + err[-600:]).replace('\n', ' / ')
-        if kind == 'ASSERT-FAIL':
+        if kind == 'ASSERT-FAIL' and flav == 'tsan':
+            if 'ThreadSanitizer: data race' in err:
+                return True, rp, detail
+        elif kind == 'ASSERT-FAIL':
             site = f['site']
             if f'ASSERT-FAIL site={site}\n' in out or (site in (-1, -2) and 'ASSERT-FAIL' in out):
                 return True, rp, detail
